@@ -229,7 +229,9 @@ class Ctx:
         ev = {"property_id": self.pid, "tier": self.tier, "seed": self.seed, "level": level, "coverage": cov,
               "assumptions": self.assumptions, "wall_s": round(wall, 2), "violations": len(self.violations)}
         os.makedirs(os.path.join(VERIF, "evidence"), exist_ok=True)
-        with open(os.path.join(VERIF, "evidence", self.pid + ".json"), "w") as f:
+        evp = os.path.join(VERIF, "evidence", "extras" if self.pid.startswith("X") else "", self.pid + ".json")
+        os.makedirs(os.path.dirname(evp), exist_ok=True)
+        with open(evp, "w") as f:
             json.dump(ev, f, indent=1, default=str)
         for d in self.drift[:5]:
             log("MODEL-DRIFT property=%s %s" % (self.pid, d))
